@@ -180,6 +180,19 @@ def discharge_lib(site, bs):
                         fs, ob = coll.c_array(v, bs)
                         if not fs:
                             return "C12.ARRAY", "the vector holds exactly N elements here (arity check, one push per element, no element failed)"
+    # C12.ITERCOUNT: `i += 1` of a hand-written iteration counter over the payload's own iterator (same bound as Iterator::enumerate)
+    if site.kind == "assert" and "Overflow(Add" in t["msg"]:
+        import loc as _loc
+        for st in v.blocks[bb]["stmts"]:
+            if st["k"] == "assign" and st["rv"]["k"] == "binop" and st["rv"]["op"] in ("Add", "AddWithOverflow"):
+                a = v.origin(st["rv"]["a"])
+                b2 = v.origin(st["rv"]["b"])
+                if a[0] == "multi" and b2 == ("const", "int", 1):
+                    for nx in bs.nexts:
+                        if _loc.loop_of(v, nx["bb"]) is not None and bb in [bd for h, bd in v.loops() if nx["bb"] in bd][0]:
+                            uses = [ch["bb"] for ch in bs.children] or [bb]
+                            if _loc.is_iteration_counter(v, a[1], nx["bb"], uses[0]):
+                                return "C12.ITERCOUNT", "one increment per item of the payload's iterator (the bound Iterator::enumerate relies on)"
     # C12.CHARCOUNT: 2 + chars().count()
     if site.kind == "assert" and "Overflow(Add" in t["msg"]:
         for st in v.blocks[bb]["stmts"]:
